@@ -26,6 +26,7 @@ import (
 	"sort"
 	"strings"
 	"sync"
+	"sync/atomic"
 	"time"
 	"unsafe"
 
@@ -60,6 +61,9 @@ type mechEnv struct {
 	jwks   []byte
 	ksPath string
 	tokens sync.Map // claims -> signed token
+	// requests received under /count/ (the endpoints whose traffic is observed): the answers under these paths are
+	// the same every time, so that reusing an earlier answer shows in this number only
+	counted atomic.Int64
 }
 
 var (
@@ -156,6 +160,17 @@ func (e *mechEnv) serve(rw http.ResponseWriter, req *http.Request) {
 		rw.Header().Set("X-Echo", req.Method)
 		rw.WriteHeader(http.StatusOK)
 		_, _ = rw.Write(data)
+	}
+
+	if strings.HasPrefix(req.URL.Path, "/count/") {
+		e.counted.Add(1)
+
+		if strings.HasPrefix(req.URL.Path, "/count/busy/") {
+			// an upstream that is never available: a client that retries asks again, nothing can be kept of the answer
+			rw.WriteHeader(http.StatusServiceUnavailable)
+
+			return
+		}
 	}
 
 	switch {
@@ -774,6 +789,33 @@ func (e *mechEnv) exec(target any, spec map[string]any, cch cache.Cache) map[str
 
 func mechInconclusive(out map[string]any) bool { b, _ := out["inconclusive"].(bool); return b }
 
+// an execution with the cache of the object, and the number of requests the observed endpoints (/count/...) received
+// meanwhile.  `fails`: the upstream of the object answers 503 to everything, a communication error is the expected
+// outcome; otherwise a communication error says nothing about the mechanism and the execution is repeated (a failed
+// exchange leaves nothing in the cache)
+func (e *mechEnv) execCounted(target any, spec map[string]any, cch cache.Cache, fails bool) (map[string]any, int64) {
+	var (
+		out   map[string]any
+		calls int64
+	)
+
+	for attempt := 0; attempt < 4; attempt++ {
+		before := e.counted.Load()
+		out = e.execOnce(target, spec, cch)
+		calls = e.counted.Load() - before
+
+		if k, _ := out["err"].(string); fails || (k != "communication" && k != "timeout") {
+			return out, calls
+		}
+
+		time.Sleep(time.Duration(50*(attempt+1)) * time.Millisecond)
+	}
+
+	out["inconclusive"] = true
+
+	return out, calls
+}
+
 func (e *mechEnv) execOnce(target any, spec map[string]any, cch cache.Cache) (out map[string]any) {
 	defer func() {
 		if r := recover(); r != nil {
@@ -963,6 +1005,43 @@ func runMech(c map[string]any) (any, error) {
 		obsList []any
 	)
 
+	// a cache per OBJECT for the executions whose upstream traffic is observed (`want_calls`): what an object finds
+	// there is what its own earlier executions have left, so the only way from one object to another is the one the
+	// property forbids (two handles for the prototype are one object)
+	ownCaches := map[uintptr]cache.Cache{}
+
+	defer func() {
+		for _, cch := range ownCaches {
+			if s, ok := cch.(interface{ Stop(ctx context.Context) error }); ok {
+				_ = s.Stop(context.Background())
+			}
+		}
+	}()
+
+	ownCache := func(target any) cache.Cache {
+		v := reflect.ValueOf(target)
+		if v.Kind() != reflect.Ptr {
+			return nil
+		}
+
+		if cch, ok := ownCaches[v.Pointer()]; ok {
+			return cch
+		}
+
+		cch, err := memory.NewCache(nil, nil, nil)
+		if err != nil {
+			return nil
+		}
+
+		if s, ok := cch.(interface{ Start(ctx context.Context) error }); ok {
+			_ = s.Start(context.Background())
+		}
+
+		ownCaches[v.Pointer()] = cch
+
+		return cch
+	}
+
 	changed := func() ([]any, []any) {
 		list, details := []any{}, []any{}
 
@@ -1108,7 +1187,25 @@ func runMech(c map[string]any) (any, error) {
 				res["ran"] = false
 			} else {
 				h := handles[hi]
-				out := env.exec(h.obj, obj(op["req"]), nil)
+
+				var out map[string]any
+
+				wantCalls := obj(op["want_calls"])
+				if wantCalls != nil {
+					// the requests the endpoint of the mechanism receives during this execution (executions are
+					// sequential here, the reference object is executed afterwards)
+					var calls int64
+
+					out, calls = env.execCounted(h.obj, obj(op["req"]), ownCache(h.obj), getBool(wantCalls, "fails"))
+					if mechInconclusive(out) {
+						res["calls"] = getInt(wantCalls, "n")
+					} else {
+						res["calls"] = int(calls)
+					}
+				} else {
+					out = env.exec(h.obj, obj(op["req"]), nil)
+				}
+
 				res["ran"] = true
 				obs["out"] = json.RawMessage(env.canon(out))
 
@@ -1130,7 +1227,15 @@ func runMech(c map[string]any) (any, error) {
 					res["ref"] = true
 					obs["inconclusive"] = true
 				default:
-					rout := env.exec(h.ref, obj(op["req"]), nil)
+					var rout map[string]any
+					if wantCalls != nil && getBool(wantCalls, "fails") {
+						// the upstream of this object never answers: the failure is the expected outcome, not
+						// something to be repeated
+						rout = env.execOnce(h.ref, obj(op["req"]), nil)
+					} else {
+						rout = env.exec(h.ref, obj(op["req"]), nil)
+					}
+
 					res["ref"] = mechInconclusive(rout) || env.canon(out) == env.canon(rout)
 
 					if mechInconclusive(rout) {
